@@ -182,7 +182,7 @@ func fixup(r *common.Rng, v reflect.Value) {
 			p.RawLeaves = true
 		}
 		if r.Chance(9, 10) && p.HashFun != "sha2-256" {
-			p.CidVersion = 1 // a CIDv0 only carries sha2-256; the server refuses the combination
+			p.CidVersion = []int{1, 1, 1, 2, -1}[r.Intn(5)] // a CIDv0 only carries sha2-256; the server refuses the combination (any other version is taken as given)
 		}
 	}
 	if v.Type().Kind() == reflect.Struct {
